@@ -20,14 +20,16 @@ CCandidates(s, ev) == (ev.kind = "choice" /\ s.pc \in DecisionPcs) => Len(ev.a) 
 CLaw(s, ev)        == (ev.kind = "choice" /\ s.pc \in DecisionPcs) =>
                          /\ Len(ev.p) = Len(s.law)
                          /\ \A i \in 1..Len(ev.p) : RatEq(ev.p[i], s.law[i])
-CPositive(s, ev)   == (ev.kind = "choice" /\ s.pc \in DecisionPcs /\ ev.k + 1 <= Len(s.law)) => Positive(s.law[ev.k + 1])
-EvOK(s, ev) == CDecision(s, ev) /\ CDraw(s, ev) /\ CCandidates(s, ev) /\ CLaw(s, ev) /\ CPositive(s, ev)
+CPositive(s, ev)   == (ev.kind = "choice" /\ s.pc \in DecisionPcs /\ ev.k >= 0 /\ ev.k + 1 <= Len(s.law)) => Positive(s.law[ev.k + 1])
+CRange(s, ev)      == ev.kind = "choice" => (ev.k >= 0 /\ ev.k + 1 <= Len(ev.a))
+EvOK(s, ev) == CDecision(s, ev) /\ CDraw(s, ev) /\ CCandidates(s, ev) /\ CLaw(s, ev) /\ CRange(s, ev) /\ CPositive(s, ev)
 FailedEv(s, ev) ==
    (IF CDecision(s, ev) THEN {} ELSE {"decision-not-expected:" \o s.pc}) \cup
    (IF CDraw(s, ev) THEN {} ELSE {"draw-not-expected:" \o s.pc}) \cup
    (IF CCandidates(s, ev) THEN {} ELSE {"candidates:" \o s.pc}) \cup
    (IF CLaw(s, ev) THEN {} ELSE {"law:" \o s.pc}) \cup
-   (IF CPositive(s, ev) THEN {} ELSE {"zero-probability-option-taken:" \o s.pc})
+   (IF CPositive(s, ev) THEN {} ELSE {"zero-probability-option-taken:" \o s.pc}) \cup
+   (IF CRange(s, ev) THEN {} ELSE {"option-not-offered:" \o s.pc})
 Step(s, ev) == IF ev.kind = "draw" THEN ApplyDraw(s, ev.t) ELSE Apply(s, ev.k + 1)
 
 (* following the implementation past a divergence of the law: the option it took exists in the machine *)
